@@ -19,65 +19,80 @@ pub open spec fn appnote_mapped_id(k: u16) -> bool {
     || k == 0x5455 || k == 0x554e || k == 0x5855 || k == 0x6375 || k == 0x6542 || k == 0x7075 || k == 0x756e
     || k == 0x7855 || k == 0xa11e || k == 0xa220 || k == 0xfd4a || k == 0x9901 || k == 0x9902
 }
-// membership in the crate's own reserved table (the const is cut out of src/write.rs on every run)
+// the same list as a sequence, to compare the crate's own table against (order as in APPNOTE)
+pub open spec fn appnote_id_list() -> Seq<u16> {
+    seq![
+        0x0001u16, 0x0007u16, 0x0008u16, 0x0009u16, 0x000au16, 0x000cu16, 0x000du16, 0x000eu16,
+        0x000fu16, 0x0014u16, 0x0015u16, 0x0016u16, 0x0017u16, 0x0018u16, 0x0019u16, 0x0020u16,
+        0x0021u16, 0x0022u16, 0x0023u16, 0x0065u16, 0x0066u16, 0x4690u16, 0x07c8u16, 0x2605u16,
+        0x2705u16, 0x2805u16, 0x334du16, 0x4341u16, 0x4453u16, 0x4704u16, 0x470fu16, 0x4b46u16,
+        0x4c41u16, 0x4d49u16, 0x4f4cu16, 0x5356u16, 0x5455u16, 0x554eu16, 0x5855u16, 0x6375u16,
+        0x6542u16, 0x7075u16, 0x756eu16, 0x7855u16, 0xa11eu16, 0xa220u16, 0xfd4au16, 0x9901u16,
+        0x9902u16,
+    ]
+}
+// the crate's reserved table (the const is cut out of src/write.rs on every run) lists exactly the APPNOTE ids;
+// validate_extra_data asserts this at its use of the table, so a changed table fails there (checked, not assumed)
+pub open spec fn reserved_table_is_appnote_list() -> bool { EXTRA_FIELD_MAPPING@ =~= appnote_id_list() }
 pub open spec fn in_reserved_table(k: u16) -> bool {
     exists|i: int| 0 <= i < EXTRA_FIELD_MAPPING@.len() && #[trigger] EXTRA_FIELD_MAPPING@[i] == k
 }
-// the crate's table is exactly the APPNOTE list (checked, not assumed: fails if the table in src/write.rs changes)
 pub proof fn lemma_reserved_table_is_appnote(k: u16)
+    requires reserved_table_is_appnote_list()
     ensures in_reserved_table(k) <==> appnote_mapped_id(k)
 {
-    assert(EXTRA_FIELD_MAPPING@.len() == 49);
+    let l = appnote_id_list();
+    assert(l.len() == 49);
     if appnote_mapped_id(k) {
-        if k == 0x0001 { assert(EXTRA_FIELD_MAPPING@[0] == k); }
-        if k == 0x0007 { assert(EXTRA_FIELD_MAPPING@[1] == k); }
-        if k == 0x0008 { assert(EXTRA_FIELD_MAPPING@[2] == k); }
-        if k == 0x0009 { assert(EXTRA_FIELD_MAPPING@[3] == k); }
-        if k == 0x000a { assert(EXTRA_FIELD_MAPPING@[4] == k); }
-        if k == 0x000c { assert(EXTRA_FIELD_MAPPING@[5] == k); }
-        if k == 0x000d { assert(EXTRA_FIELD_MAPPING@[6] == k); }
-        if k == 0x000e { assert(EXTRA_FIELD_MAPPING@[7] == k); }
-        if k == 0x000f { assert(EXTRA_FIELD_MAPPING@[8] == k); }
-        if k == 0x0014 { assert(EXTRA_FIELD_MAPPING@[9] == k); }
-        if k == 0x0015 { assert(EXTRA_FIELD_MAPPING@[10] == k); }
-        if k == 0x0016 { assert(EXTRA_FIELD_MAPPING@[11] == k); }
-        if k == 0x0017 { assert(EXTRA_FIELD_MAPPING@[12] == k); }
-        if k == 0x0018 { assert(EXTRA_FIELD_MAPPING@[13] == k); }
-        if k == 0x0019 { assert(EXTRA_FIELD_MAPPING@[14] == k); }
-        if k == 0x0020 { assert(EXTRA_FIELD_MAPPING@[15] == k); }
-        if k == 0x0021 { assert(EXTRA_FIELD_MAPPING@[16] == k); }
-        if k == 0x0022 { assert(EXTRA_FIELD_MAPPING@[17] == k); }
-        if k == 0x0023 { assert(EXTRA_FIELD_MAPPING@[18] == k); }
-        if k == 0x0065 { assert(EXTRA_FIELD_MAPPING@[19] == k); }
-        if k == 0x0066 { assert(EXTRA_FIELD_MAPPING@[20] == k); }
-        if k == 0x4690 { assert(EXTRA_FIELD_MAPPING@[21] == k); }
-        if k == 0x07c8 { assert(EXTRA_FIELD_MAPPING@[22] == k); }
-        if k == 0x2605 { assert(EXTRA_FIELD_MAPPING@[23] == k); }
-        if k == 0x2705 { assert(EXTRA_FIELD_MAPPING@[24] == k); }
-        if k == 0x2805 { assert(EXTRA_FIELD_MAPPING@[25] == k); }
-        if k == 0x334d { assert(EXTRA_FIELD_MAPPING@[26] == k); }
-        if k == 0x4341 { assert(EXTRA_FIELD_MAPPING@[27] == k); }
-        if k == 0x4453 { assert(EXTRA_FIELD_MAPPING@[28] == k); }
-        if k == 0x4704 { assert(EXTRA_FIELD_MAPPING@[29] == k); }
-        if k == 0x470f { assert(EXTRA_FIELD_MAPPING@[30] == k); }
-        if k == 0x4b46 { assert(EXTRA_FIELD_MAPPING@[31] == k); }
-        if k == 0x4c41 { assert(EXTRA_FIELD_MAPPING@[32] == k); }
-        if k == 0x4d49 { assert(EXTRA_FIELD_MAPPING@[33] == k); }
-        if k == 0x4f4c { assert(EXTRA_FIELD_MAPPING@[34] == k); }
-        if k == 0x5356 { assert(EXTRA_FIELD_MAPPING@[35] == k); }
-        if k == 0x5455 { assert(EXTRA_FIELD_MAPPING@[36] == k); }
-        if k == 0x554e { assert(EXTRA_FIELD_MAPPING@[37] == k); }
-        if k == 0x5855 { assert(EXTRA_FIELD_MAPPING@[38] == k); }
-        if k == 0x6375 { assert(EXTRA_FIELD_MAPPING@[39] == k); }
-        if k == 0x6542 { assert(EXTRA_FIELD_MAPPING@[40] == k); }
-        if k == 0x7075 { assert(EXTRA_FIELD_MAPPING@[41] == k); }
-        if k == 0x756e { assert(EXTRA_FIELD_MAPPING@[42] == k); }
-        if k == 0x7855 { assert(EXTRA_FIELD_MAPPING@[43] == k); }
-        if k == 0xa11e { assert(EXTRA_FIELD_MAPPING@[44] == k); }
-        if k == 0xa220 { assert(EXTRA_FIELD_MAPPING@[45] == k); }
-        if k == 0xfd4a { assert(EXTRA_FIELD_MAPPING@[46] == k); }
-        if k == 0x9901 { assert(EXTRA_FIELD_MAPPING@[47] == k); }
-        if k == 0x9902 { assert(EXTRA_FIELD_MAPPING@[48] == k); }
+        if k == 0x0001 { assert(l[0] == k); }
+        if k == 0x0007 { assert(l[1] == k); }
+        if k == 0x0008 { assert(l[2] == k); }
+        if k == 0x0009 { assert(l[3] == k); }
+        if k == 0x000a { assert(l[4] == k); }
+        if k == 0x000c { assert(l[5] == k); }
+        if k == 0x000d { assert(l[6] == k); }
+        if k == 0x000e { assert(l[7] == k); }
+        if k == 0x000f { assert(l[8] == k); }
+        if k == 0x0014 { assert(l[9] == k); }
+        if k == 0x0015 { assert(l[10] == k); }
+        if k == 0x0016 { assert(l[11] == k); }
+        if k == 0x0017 { assert(l[12] == k); }
+        if k == 0x0018 { assert(l[13] == k); }
+        if k == 0x0019 { assert(l[14] == k); }
+        if k == 0x0020 { assert(l[15] == k); }
+        if k == 0x0021 { assert(l[16] == k); }
+        if k == 0x0022 { assert(l[17] == k); }
+        if k == 0x0023 { assert(l[18] == k); }
+        if k == 0x0065 { assert(l[19] == k); }
+        if k == 0x0066 { assert(l[20] == k); }
+        if k == 0x4690 { assert(l[21] == k); }
+        if k == 0x07c8 { assert(l[22] == k); }
+        if k == 0x2605 { assert(l[23] == k); }
+        if k == 0x2705 { assert(l[24] == k); }
+        if k == 0x2805 { assert(l[25] == k); }
+        if k == 0x334d { assert(l[26] == k); }
+        if k == 0x4341 { assert(l[27] == k); }
+        if k == 0x4453 { assert(l[28] == k); }
+        if k == 0x4704 { assert(l[29] == k); }
+        if k == 0x470f { assert(l[30] == k); }
+        if k == 0x4b46 { assert(l[31] == k); }
+        if k == 0x4c41 { assert(l[32] == k); }
+        if k == 0x4d49 { assert(l[33] == k); }
+        if k == 0x4f4c { assert(l[34] == k); }
+        if k == 0x5356 { assert(l[35] == k); }
+        if k == 0x5455 { assert(l[36] == k); }
+        if k == 0x554e { assert(l[37] == k); }
+        if k == 0x5855 { assert(l[38] == k); }
+        if k == 0x6375 { assert(l[39] == k); }
+        if k == 0x6542 { assert(l[40] == k); }
+        if k == 0x7075 { assert(l[41] == k); }
+        if k == 0x756e { assert(l[42] == k); }
+        if k == 0x7855 { assert(l[43] == k); }
+        if k == 0xa11e { assert(l[44] == k); }
+        if k == 0xa220 { assert(l[45] == k); }
+        if k == 0xfd4a { assert(l[46] == k); }
+        if k == 0x9901 { assert(l[47] == k); }
+        if k == 0x9902 { assert(l[48] == k); }
     }
 }
 pub open spec fn forbidden_id(k: u16) -> bool {
